@@ -357,8 +357,8 @@ class Scen(CompScenario):
 class Prop(PropBase):
     ID = "C23"
     tiers = {
-        "quick": {"runs": 480, "selftest_runs": 4},
-        "thorough": {"runs": 9000, "selftest_runs": 32},
+        "quick": {"runs": 1600, "selftest_runs": 4, "shrink_budget_s": 5},
+        "thorough": {"runs": 26000, "selftest_runs": 32, "shrink_budget_s": 30},
     }
     rule = ("one run = one (class, depth, row shape (width, signedness, array of elements), read/write port count, "
             "init, transparency set per read port, granularity) configuration; the memory under test and an amaranth.lib.memory.Memory get the "
